@@ -16,12 +16,14 @@ TargetsMC == { <<66>>, <<8364>>, <<128512>>, <<102, 102, 105>>, <<101, 769>>, <<
 \* (a range target's last UTF-16 unit is incremented, so 3-code ranges need headroom: FFFD.., DFFD..)
 TargetsBig == TargetsMC \cup { <<65533>>, <<1114109>>, <<117, 776>>, <<57344>> }
 
-Fmts == { [sep |-> "lf", tight |-> FALSE, lower |-> FALSE, split |-> FALSE],
-          [sep |-> "crlf", tight |-> TRUE, lower |-> TRUE, split |-> FALSE],
-          [sep |-> "sp", tight |-> FALSE, lower |-> FALSE, split |-> FALSE],
-          [sep |-> "lf", tight |-> FALSE, lower |-> TRUE, split |-> TRUE],
-          [sep |-> "cr", tight |-> TRUE, lower |-> FALSE, split |-> FALSE] }
-NoFmt == [sep |-> "lf", tight |-> FALSE, lower |-> FALSE, split |-> FALSE]
+Fmts == { [sep |-> "lf", tight |-> FALSE, lower |-> FALSE, split |-> FALSE, order |-> "asc"],
+          [sep |-> "crlf", tight |-> TRUE, lower |-> TRUE, split |-> FALSE, order |-> "asc"],
+          [sep |-> "sp", tight |-> FALSE, lower |-> FALSE, split |-> FALSE, order |-> "asc"],
+          [sep |-> "lf", tight |-> FALSE, lower |-> TRUE, split |-> TRUE, order |-> "asc"],
+          [sep |-> "cr", tight |-> TRUE, lower |-> FALSE, split |-> FALSE, order |-> "asc"],
+          [sep |-> "lf", tight |-> FALSE, lower |-> FALSE, split |-> FALSE, order |-> "desc"],
+          [sep |-> "crlf", tight |-> FALSE, lower |-> TRUE, split |-> FALSE, order |-> "sections"] }
+NoFmt == [sep |-> "lf", tight |-> FALSE, lower |-> FALSE, split |-> FALSE, order |-> "asc"]
 NoCm == [width |-> 1, entries |-> <<>>]
 
 Init == /\ kind \in {"table", "cmap", "utf16", "prio"}
